@@ -316,6 +316,14 @@ fn c03_session(ctx: &Ctx, rng: &mut Rng, st: &mut Stats, session_no: u64) {
                 return;
             }
             Err(bb::Fail::Timeout) => {
+                if eng.idle_after_timeout() {
+                    st.violation(
+                        format!("C03:no-answer-and-idle:{}:{}", pos_cmd, go),
+                        format!("'{}' on {} was not answered by a bestmove line within 120 s and the engine is idle (asleep waiting for input, no CPU used): its search is over and no answer line has come out", go, g.cur.to_fen()),
+                        case(),
+                    );
+                    return;
+                }
                 st.inconclusive.push(format!("no answer to '{}' on {} within 120 s (unbounded liveness cannot be decided by a finite run)", go, g.cur.to_fen()));
                 return;
             }
@@ -382,6 +390,10 @@ fn c03_sibling_session(ctx: &Ctx, rng: &mut Rng, st: &mut Stats) {
                 return;
             }
             Err(bb::Fail::Timeout) => {
+                if eng.idle_after_timeout() {
+                    st.violation(format!("C03:no-answer-and-idle:{}:{}", pos_cmd, go), format!("'{}' on {} was not answered by a bestmove line within 120 s and the engine is idle (asleep waiting for input, no CPU used): its search is over and no answer line has come out", go, p.to_fen()), case);
+                    return;
+                }
                 st.inconclusive.push(format!("no answer to '{}' on {} within 120 s", go, p.to_fen()));
                 return;
             }
@@ -440,6 +452,10 @@ fn c03_maxdepth_session(ctx: &Ctx, rng: &mut Rng, st: &mut Stats) {
                 return;
             }
             Err(bb::Fail::Timeout) => {
+                if eng.idle_after_timeout() {
+                    st.violation(format!("C03:no-answer-and-idle:{}:{}", pos_cmd, go), format!("'{}' on {} was not answered by a bestmove line within 120 s and the engine is idle (asleep waiting for input, no CPU used): its search is over and no answer line has come out", go, p.to_fen()), case);
+                    return;
+                }
                 st.inconclusive.push(format!("no answer to '{}' on {} within 120 s", go, p.to_fen()));
                 return;
             }
@@ -875,9 +891,9 @@ fn first_difference(a: &[String], b: &[String]) -> String {
 pub fn run_c13(ctx: &Ctx) -> i32 {
     let spec = Spec {
         level: "exploration",
-        rule: "cases: (a) a depth-limited script (2..7 position/go depth 3..6 commands on middlegames) run in N separate processes of the real binary — each draws its own random hash keys — must give byte-identical transcripts once the time and nps fields are removed; (b) in-process, K fresh searchers (K key sets) must agree on (score, move, node count) for each (position, depth); (c) the transcript of a script after 'prefix; ucinewgame' (prefix: searches, time-limited searches, long position histories, games from the start position that repeat positions two or three times; the script often starts with a bare go, which searches the start position) must equal its transcript in a fresh process; (c') after 1..24 quick searches and ucinewgame, a whole game searched move after move (12..20 searches at depth 4..5) must equal the same game in a fresh process; an engine that dies in the compared part while a fresh process runs it to the end (and that demonstrably survives 'prefix; ucinewgame') differs from a fresh process too; (d) injected delays: a depth-limited script (optionally with a depth-1 go that carries a move time or a clock first) is run once normally and once with the process stopped (SIGSTOP) for 2.3..2.7 s in the middle of every 'go depth N' — the transcripts must be identical. Distinct by script / (position, depth); all non-trivial (every case compares at least two executions)",
+        rule: "cases: (a) a depth-limited script (2..7 position/go depth 3..6 commands on middlegames) run in N separate processes of the real binary — each draws its own random hash keys — must give byte-identical transcripts once the time and nps fields are removed; (b) in-process, K fresh searchers (K key sets) must agree on (score, move, node count) for each (position, depth); (c) the transcript of a script after 'prefix; ucinewgame' (prefix: searches, time-limited searches, long position histories, games from the start position that repeat positions two or three times; the script often starts with a bare go, which searches the start position) must equal its transcript in a fresh process; (c') after 1..24 quick searches and ucinewgame, a whole game searched move after move (12..20 searches at depth 4..5) must equal the same game in a fresh process; an engine that dies in the compared part while a fresh process runs it to the end (and that demonstrably survives 'prefix; ucinewgame') differs from a fresh process too; (c'') a search, 255..1024 ucinewgame commands in a row, the same search again — as in a fresh process (one-byte counters and generation tags wrap at 256); (d) injected delays: a depth-limited script (optionally with a depth-1 go that carries a move time or a clock first) is run once normally and once with the process stopped (SIGSTOP) for 2.3..2.7 s in the middle of every 'go depth N' — the transcripts must be identical. Distinct by script / (position, depth); all non-trivial (every case compares at least two executions)",
         assumptions: vec!["key sets not drawn in this run are not covered".into(), "only depth-limited searches are compared (time-limited ones legitimately depend on the machine)".into()],
-        required: if ctx.replay.is_some() { vec![] } else { vec!["scripts_compared_across_processes", "process_pairs_compared", "key_set_groups_compared", "ucinewgame_scripts_compared", "ucinewgame_scripts_starting_with_bare_go", "ucinewgame_scripts_resuming_the_previous_game_line", "soak_scripts_compared", "ucinewgame_then_a_whole_game_compared", "scripts_compared_with_and_without_injected_delays", "paused_scripts_after_a_go_that_carried_a_clock_and_ended_at_once"] },
+        required: if ctx.replay.is_some() { vec![] } else { vec!["scripts_compared_across_processes", "process_pairs_compared", "key_set_groups_compared", "ucinewgame_scripts_compared", "ucinewgame_scripts_starting_with_bare_go", "ucinewgame_scripts_resuming_the_previous_game_line", "soak_scripts_compared", "ucinewgame_then_a_whole_game_compared", "scripts_compared_with_and_without_injected_delays", "scripts_with_hundreds_of_new_games_in_a_row_compared", "paused_scripts_after_a_go_that_carried_a_clock_and_ended_at_once"] },
         exhaustive: false,
         extra: vec![],
     };
@@ -1149,6 +1165,40 @@ pub fn run_c13(ctx: &Ctx) -> i32 {
                     );
                 }
                 (Err(e), _) | (_, Err(e)) => st.inconclusive.push(format!("C13 script failed: {}", e)),
+            }
+        }
+        // (c'') many new games in a row: a search, then N x ucinewgame (N at and around 256 and 512 — counters
+        // and generation tags of one byte wrap there), then the same search again: as in a fresh process
+        if w < (if ctx.quick() { 4 } else { 12 }) {
+            let n_new = [256usize, 512, 255, 257, 1024, 768, 300, 2][w % 8];
+            let p = gen::g_game_pos(&mut rng);
+            if !p.legal_moves().is_empty() {
+                let pos = format!("position fen {}", p.to_fen());
+                let d = if p.piece_count() <= 12 { 5 } else { 4 };
+                let mut full = vec![pos.clone(), format!("go depth {}", d)];
+                for _ in 0..n_new {
+                    full.push("ucinewgame".into());
+                }
+                let from = full.len();
+                let suffix = vec![pos.clone(), format!("go depth {}", d)];
+                full.extend(suffix.iter().cloned());
+                let case = J::obj(vec![("kind", J::s("ucinewgame")), ("commands", J::arr_s(full.clone())), ("compare_from", J::i(from as i64))]);
+                st.case(hash64(&(full.clone(), 0xc2u8)), true);
+                st.sample_tagged("many_new_games", || J::obj(vec![("kind", J::s("ucinewgame")), ("position", J::s(pos.clone())), ("ucinewgame_commands_in_a_row", J::i(n_new as i64))]));
+                match (transcript(ctx, &full, from), transcript(ctx, &suffix, 0)) {
+                    (Ok(a), Ok(b)) => {
+                        st.bump("scripts_with_hundreds_of_new_games_in_a_row_compared");
+                        st.maxi("max_ucinewgame_commands_in_a_row", n_new as u64);
+                        if a != b {
+                            st.violation(
+                                format!("C13:many-newgames:{}:{}", n_new, pos),
+                                format!("after '{} ; go depth {}' and {} x ucinewgame, the same search does not behave as in a fresh process: {}", pos, d, n_new, first_difference(&a, &b)),
+                                case,
+                            );
+                        }
+                    }
+                    (Err(e), _) | (_, Err(e)) => st.inconclusive.push(format!("C13 script failed: {}", e)),
+                }
             }
         }
         // (d) injected delays: the output of depth-limited searches must not depend on how long they take.
